@@ -1,2 +1,4 @@
+import Proofs.C06
 import Proofs.C07
 import Proofs.GenEq.Cmp
+import Proofs.GenEq.Cont
